@@ -21,12 +21,13 @@ SHAPES = {
     "array": ("pub struct Cfg { pub name: String }", "[Cfg; 1]", '[Cfg { name: "nm".to_string() }]', "&deps[0].name"),
     "reference": ("", "&'static str", '"nm"', "deps"),
 }
-ARGS = {"i": ("i64", "{v}", "{v}"), "s": ("&str", '"s{v}"', "s{v}")}
+ARGS = {"i": ("i64", "{v}", "{v}"), "s": ("&str", '"s{v}"', "s{v}"), "g": ("T", "{v}i64", "{v}")}
+TGEN = "T: ::core::fmt::Display + ::core::marker::Send + ::core::marker::Sync"
 
 
 def enumerate_states(tier):
     maxlen = 3 if tier == "thorough" else 2
-    words, transitions = common.words("is", maxlen)
+    words, transitions = common.words("isg", maxlen)
     states = []
     for shape in SHAPES:
         for asy in (False, True):
@@ -45,12 +46,13 @@ def render(s):
     args = [ARGS[k][1].format(v=10 + i) for i, k in enumerate(s["word"])]
     shows = ["a%d" % i for i in range(len(s["word"]))]
     asyk = "async " if s["asy"] else ""
+    tg = TGEN if "g" in s["word"] else ""
     if s["borrowed"]:
-        sig = "pub %sfn f<'d>(deps: &'d %s%s) -> &'d str" % (asyk, ty, "".join(", " + p for p in params))
+        sig = "pub %sfn f<'d%s>(deps: &'d %s%s) -> &'d str" % (asyk, ", " + tg if tg else "", ty, "".join(", " + p for p in params))
         ret_ty = "&str"
         result = name_expr
     else:
-        sig = "pub %sfn f(deps: &%s%s) -> String" % (asyk, ty, "".join(", " + p for p in params))
+        sig = "pub %sfn f%s(deps: &%s%s) -> String" % (asyk, "<%s>" % tg if tg else "", ty, "".join(", " + p for p in params))
         ret_ty = "String"
         result = gen.fmt_call("R", shows)
     ms = s.get("maybe_send")
@@ -70,13 +72,16 @@ def render(s):
         hsig = "fn f%s(&%sself%s) -> %s" % ("<'d>" if s["borrowed"] else "", "'d " if s["borrowed"] else "", hand_params, hret)
     else:
         hsig = "fn f%s(&%sself%s) -> %s" % ("<'d>" if s["borrowed"] else "", "'d " if s["borrowed"] else "", hand_params, "&'d str" if s["borrowed"] else "String")
+    # (type parameters of the fn are lifted to the generated trait: `Tr<T>`)
+    TRI = "impl<%s> Tr<T>" % tg if tg else "impl Tr"
+    TRA = "Tr<i64>" if tg else "Tr"
     L.append("    pub struct App { pub c: %s, pub other: u8 }" % ty)
-    L.append("    impl Tr for App { %s { Tr::f(&self.c%s) } }" % (hsig, "".join(", " + a for a in shows)))
+    L.append("    %s for App { %s { Tr::f(&self.c%s) } }" % (TRI, hsig, "".join(", " + a for a in shows)))
     L.append("    pub struct BareApp { pub c: %s, pub m: rt::BareMarker }" % ty)
-    L.append("    impl Tr for BareApp { %s { Tr::f(&self.c%s) } }" % (hsig, "".join(", " + a for a in shows)))
+    L.append("    %s for BareApp { %s { Tr::f(&self.c%s) } }" % (TRI, hsig, "".join(", " + a for a in shows)))
     L.append("    pub struct NoTrait; pub struct NotSyncApp { pub c: %s, pub m: rt::NotSyncMarker }" % ty)
     if not s["asy"]:
-        L.append("    impl Tr for NotSyncApp { %s { Tr::f(&self.c%s) } }" % (hsig, "".join(", " + a for a in shows)))
+        L.append("    %s for NotSyncApp { %s { Tr::f(&self.c%s) } }" % (TRI, hsig, "".join(", " + a for a in shows)))
 
     def wrap(e):
         return "rt::block_on(%s)" % e if s["asy"] else e
@@ -87,14 +92,14 @@ def render(s):
     L.append('        { let r = %s; rt::out("on_c", format!("{}##{}##{:x}", rt::take(), r, rt::addr(&c))); }' % wrap("Tr::f(&c%s)" % a))
     L.append("        let ic = ::entrait::Impl::new(%s);" % ctor)
     L.append('        { let r = %s; rt::out("impl_c", format!("{}##{}##{:x}", rt::take(), r, rt::addr(&*ic))); }'
-             % wrap("<::entrait::Impl<%s> as Tr>::f(&ic%s)" % (ty, a)))
+             % wrap("<::entrait::Impl<%s> as %s>::f(&ic%s)" % (ty, TRA, a)))
     L.append("        let iapp = ::entrait::Impl::new(App { c: %s, other: 0 });" % ctor)
     L.append('        { let r = %s; rt::out("impl_app", format!("{}##{}##{:x}", rt::take(), r, rt::addr(&iapp.c))); }'
-             % wrap("<::entrait::Impl<App> as Tr>::f(&iapp%s)" % a))
+             % wrap("<::entrait::Impl<App> as %s>::f(&iapp%s)" % (TRA, a)))
     probes = ["%s" % ty, "::entrait::Impl<%s>" % ty, "App", "::entrait::Impl<App>", "::entrait::Impl<BareApp>", "NoTrait", "::entrait::Impl<NoTrait>",
               "::entrait::Impl<NotSyncApp>", "::entrait::Impl<::entrait::Impl<App>>"]
     L.append('        rt::out("avail", [%s].iter().map(|b| if *b { "1" } else { "0" }).collect::<String>());'
-             % ", ".join("implements!(%s: Tr)" % t for t in probes))
+             % ", ".join("implements!(%s: %s)" % (t, TRA) for t in probes))
     L += ["    }", "}"]
     return engine.Unit(key, "\n".join(L), 'rt::run("%s", %s::client);' % (key, key), s)
 
